@@ -79,6 +79,36 @@ pub fn shrink_file(exe: &str, path: &str, v: &Violation, profile: &str, deadline
                 }
             }
         }
+        // (0b) history of earlier loads: drop it entirely, else one element at a time
+        if !plan.prelude.is_empty() {
+            let mut c = plan.clone();
+            c.prelude.clear();
+            if same(exe, &c, &sig, &mut tries) {
+                plan = c;
+                steps.push("history of earlier loads not needed".into());
+            } else {
+                for i in (0..plan.prelude.len()).rev() {
+                    if plan.prelude.len() <= 1 {
+                        break;
+                    }
+                    let mut c = plan.clone();
+                    c.prelude.remove(i);
+                    if same(exe, &c, &sig, &mut tries) {
+                        plan = c;
+                        steps.push("history shortened".into());
+                    }
+                }
+                // simplify the surviving history runs: reader sizes
+                for i in 0..plan.prelude.len() {
+                    let mut c = plan.clone();
+                    c.prelude[i].reader.sizes.clear();
+                    c.prelude[i].reader.eintr.clear();
+                    if same(exe, &c, &sig, &mut tries) {
+                        plan = c;
+                    }
+                }
+            }
+        }
         // (1) drop faults
         let mut changed = true;
         while changed && left(deadline) {
